@@ -298,7 +298,7 @@ type jEntry struct {
 	// description the generation reads
 	RemoteAppMids []string
 	RemoteAllMids []string
-	RemoteSecs    []jSec // all sections of that remote description
+	RemoteSecs    []jSec   // all sections of that remote description
 	PendingMids   []string // mids of the pending remote description, if any
 	Err           string
 }
